@@ -23,7 +23,7 @@ import itertools
 import json
 import math
 
-from . import circ
+from . import circ, e2e
 from .common import Ctx, Result
 
 LEVEL = "proof"
@@ -149,11 +149,12 @@ def eval_case(case, active_quirks=()):
     algo, n = case["algo"], case["n"]
     tj = case["tj"]
     try:
-        if case.get("secret_oracle"):
-            from qlasskit.algorithms.bernsteinvazirani import secret_oracle
-            qf = secret_oracle(n, case["secret"])
-        else:
-            qf = QlassF.from_function(case["src"])
+        with e2e.ChoiceLog() as chlog:
+            if case.get("secret_oracle"):
+                from qlasskit.algorithms.bernsteinvazirani import secret_oracle
+                qf = secret_oracle(n, case["secret"])
+            else:
+                qf = QlassF.from_function(case["src"])
     except Exception as e:  # noqa
         out["skip"] = f"compile-raised:{type(e).__name__}"
         return out
@@ -236,6 +237,23 @@ def eval_case(case, active_quirks=()):
             out["skip"] = "blackbox-no-ret"
         if out["skip"]:
             return out
+    # ---- is this instance covered end to end by C16_end_to_end_fragment?
+    out["e2e"] = "no-form"
+    e2e_req = e2e.request(qf, chlog)
+    if e2e_req is not None:
+        def e2e_check(rep, _oj=oj, _nq=fc.num_qubits, _ret=ret):
+            if _ret is None:  # Simon: the class has one return bit
+                try:
+                    _ret = fc[e2e_req["ret"][0]] if len(e2e_req["ret"]) == 1 else None
+                except Exception:  # noqa
+                    _ret = None
+            status, detail = e2e.verdict(rep, _oj, _nq, _ret)
+            out["e2e"] = status
+            if status == "mismatch":
+                return dict(what="black box definition list is in the class inXorFragment but the compiler model run on the "
+                            "logged ancilla choices does not reproduce the black box circuit of this instance", **detail)
+            return None
+        out["reqs"].append((e2e_req, e2e_check))
     # ---- correspondence requests
     code_gates = strip_ids(gj)
     out["reqs"].append((dict(op="c16.gates", algo=algo, n=n, ret=ret or 0, oracle=oj),
@@ -482,6 +500,18 @@ def run(ctx: Ctx) -> Result:
         k = len(out["reqs"])
         judge(ctx, res, case, out, None if replies is None else replies[pos: pos + k])
         pos += k
+    tally = e2e.Tally()
+    for case, out in evaluated:
+        tally.add(out.get("e2e", "no-form") if replies is not None else "no-form", case["algo"])
+    res.extra["end_to_end"] = dict(covered=tally.covered, instances=tally.total, by_algo=tally.by)
+    res.notes.append(
+        f"{tally.covered} of {tally.total} evaluated instances are covered end to end by the Lean theorem "
+        "C16_end_to_end_fragment: the black box's definition list lies in the decidable class inXorFragment (one return bit) "
+        "AND the compiler model, run on the ancilla choices logged from the real compilation, emits exactly the black box "
+        f"circuit inside this algorithm circuit (a difference would be a disagreement); per algorithm covered/evaluated: "
+        f"{tally.by_text()}; the other instances (several return bits - every Simon instance on 2..4 bits -, several "
+        "definitions, repeated sub-expressions, constants) rest on the per-instance clean-xor-oracle check of the real "
+        "circuit, as before")
     res.extra["skipped_blackboxes"] = skips
     res.exhaustive = True
     res.notes.append("exhaustive: constant/balanced functions on 1..3 bits (x argument types), secrets on 1..5 bits, "
